@@ -55,6 +55,11 @@ func drawC04(t *rapid.T) *C04Case {
 	f := drawFamily(t)
 	c := &C04Case{C01Case: *drawBoolCase(t, f)}
 	c.Entry = 0
+	if rapid.IntRange(0, 3).Draw(t, "many") == 0 {
+		// many overlapping paths: rings that are cut several times and holes whose container
+		// is reachable only through a chain of split pieces
+		c.Subj = drawClosedPaths(t, f, 4, 10, "subjMany")
+	}
 	if rapid.IntRange(0, 2).Draw(t, "nested") == 0 {
 		c.Subj = append(c.Subj, drawNested(t, f)...)
 		if rapid.Bool().Draw(t, "nestedClip") && c.Clip != nil {
